@@ -58,6 +58,8 @@ def rand_dtg(rng, tmax, ntiers=None, kw_share=0.0, names_unique=True, sliver=Non
         else:
             for x in sorted(rng.sample(range(0, tmax + 1), rng.randint(0, min(5, tmax)))):
                 ents.append([x, rand_label(rng, 6, kw_share)])
+        if rng.random() < 0.08:
+            ents = []                      # tiers without entries are legal and common (a fresh annotation layer)
         tiers.append({"isint": isint, "name": nm, "xmin": 0, "xmax": tmax, "entries": ents})
     return {"xmin": 0, "xmax": tmax, "tiers": tiers}
 
